@@ -206,6 +206,35 @@ def handle (op : String) (j : Json) : Option (Except String Json) :=
           | .error _ => false
         let ev := if split then evalApprovalSplit else evalApproval
         pure (answer (slotsE (ev b)) (slotsE (ev p)) (some (dictJson approvalJson moved)))
+      else if rule = "score_trunc" then
+        -- ScoreVoting(function, unscored_value, min_count, truncation): evaluated by the {score: count} table model of C12
+        let b ← pDict pScoreBallot jb
+        let p ← pDict pScoreBallot jp
+        let pj ← j.getObjVal? "param"
+        let fnName ← pj.getObjValAs? String "fn"
+        let fn : Score.Agg := if fnName = "mean" then .mean else .sum
+        let un : Score.Unscored ← match pj.getObjVal? "unscored" with
+          | .ok Json.null => pure Score.Unscored.none
+          | .ok v => do pure (Score.Unscored.value (← jsonRat v))
+          | .error _ => pure Score.Unscored.none
+        let mc ← pj.getObjValAs? Int "min_count"
+        let tr : Score.Trunc ← match pj.getObjVal? "trunc" with
+          | .ok Json.null => pure Score.Trunc.off
+          | .ok v => match v.getObjVal? "count" with
+            | .ok c => do pure (Score.Trunc.count (← fromJson? (α := Nat) c))
+            | .error _ => do pure (Score.Trunc.frac (← getRat v "frac"))
+          | .error _ => pure Score.Trunc.off
+        let cfg : Score.Cfg := { fn := fn, unscored := un, minCount := mc, trunc := tr, bottom := 0 }
+        let ib ← intProfile b
+        let ip ← intProfile p
+        let moved ← match kind with
+          | "raise" => do
+            let x ← nthKey b (← mv.getObjValAs? Nat "ballot")
+            let s ← getRat mv "score"
+            pure (replaceUnit b x (raiseScore w s x))
+          | k => throw s!"score_trunc: unknown move {k}"
+        pure (answer (exceptJson slotsJson (Score.scoreVoting cfg ib 1)) (exceptJson slotsJson (Score.scoreVoting cfg ip 1))
+          (some (dictJson scoreBallotJson moved)))
       else if rule = "score_sum" then
         let b ← pDict pScoreBallot jb
         let p ← pDict pScoreBallot jp
